@@ -297,3 +297,119 @@ def build_arguments(chk, repo, rule, where='TidalPy/RadialSolver/solver.pyx'):
                 bad.append(f'layer {li}: radial span is not (bottom radius, top radius) of the layer')
         chk.ob(rule, f'layers {lab}: cf_build_solver receives, for every layer, that layer\'s slices of the five material arrays, its slice count, flags and radial span, and the frequency / degree / G of the solve',
                not bad, '; '.join(bad[:4]), where, key=f'{rule}|{lab}', method='recorded arguments of the whole-function symbolic execution')
+
+
+def starting_arguments(chk, repo, rule, where='TidalPy/RadialSolver/solver.pyx'):
+    """what the executed driver hands to cf_find_starting_conditions: the flags of the innermost layer, the requested family, and the material values of the innermost slice"""
+    d = X.Decider(seed=chk.seed + 85, k=2)
+    for kinds in (('solid', 'solid'), ('liquid', 'solid'), ('liquid-static', 'solid'), ('solid-static', 'liquid')):
+        for kam in (False, True):
+            for incomp in (False, True):
+                lab = f'innermost layer {kinds[0]}' + (', incompressible' if incomp else '') + (', Kamata family' if kam else ', Takeuchi-Saito family')
+                r = SR.run_solver(repo, kinds, ('tidal',), False, incompressible=incomp, extra_kwargs={'use_kamata': kam})
+                if len(r.start_calls) != 1:
+                    chk.ob(rule, f'{lab}: starting conditions are computed once, for the innermost layer', False, f'{len(r.start_calls)} calls (raised: {getattr(r.raised, "text", None)})', where, key=f'{rule}|{lab}|count'); continue
+                a = r.start_calls[0]
+                need = ['layer_type', 'is_static', 'is_incompressible', 'use_kamata', 'frequency', 'radius', 'density', 'bulk_modulus', 'shear_modulus', 'degree_l', 'G_to_use', 'num_ys']
+                missing = [n for n in need if n not in a]
+                if missing:
+                    raise AnalysisError(f'cf_find_starting_conditions: parameters {missing} vanished')
+                bad = []
+                if a['layer_type'] != SR.KIND[kinds[0]][0] or bool(a['is_static']) != SR.KIND[kinds[0]][1]: bad.append(f'flags ({a["layer_type"]}, {a["is_static"]}) are not those of the innermost layer')
+                if bool(a['is_incompressible']) != incomp: bad.append('incompressibility flag is not that of the innermost layer')
+                if bool(a['use_kamata']) != kam: bad.append('the requested starting family is not passed on')
+                for pn, ref, txt in (('frequency', r.sym['w'], 'the forcing frequency'), ('radius', r.inputs['radius'][0], 'the innermost radius'), ('density', r.inputs['density'][0], 'the innermost density'),
+                                     ('bulk_modulus', r.inputs['bulk'][0], 'the innermost bulk modulus'), ('shear_modulus', r.inputs['shear'][0], 'the innermost shear modulus'),
+                                     ('degree_l', r.sym['l'], 'the requested degree'), ('G_to_use', X.atom('Gconst', 'pos'), 'the gravitational constant of the solve')):
+                    v = a[pn]
+                    if isinstance(v, Opaque) or not d.equal(X.lift(v), ref): bad.append(f'{pn} is not {txt}')
+                if a['num_ys'] != SR.MAXY: bad.append(f'num_ys = {a["num_ys"]}, the starting block has stride {SR.MAXY}')
+                chk.ob(rule, f'{lab}: cf_find_starting_conditions receives the innermost layer\'s flags and material values, the frequency / degree / G of the solve and the requested family', not bad,
+                       '; '.join(bad[:4]), where, key=f'{rule}|{lab}', method='recorded arguments of the whole-function symbolic execution')
+
+
+def entry_point_arguments(chk, repo, rule, where='TidalPy/RadialSolver/solver.pyx'):
+    """The Python entry point radial_solver(...) is interpreted with the compiled driver replaced by a recorder: every parameter of cf_radial_solver must receive the
+    like-named argument of the entry point (arrays as pointers to their first element, per-layer tuples unpacked in order into the heap arrays, 'solid' / 'liquid'
+    encoded as 0 / 1, the integration method as its code), independent of how the entry point names its locals."""
+    from ..core.interp import Interp, Arr, FuncRef
+    import ast as _ast
+    ms = repo.by_path(where)
+    fw = ms.defs.get('radial_solver'); fc = ms.defs.get('cf_radial_solver')
+    if not isinstance(fw, _ast.FunctionDef) or not isinstance(fc, _ast.FunctionDef):
+        raise AnalysisError('radial_solver / cf_radial_solver vanished')
+    cparams = [a.arg for a in fc.args.args]
+    rec = {}
+
+    def call_hook(itp, f, args, kwargs, e, fr):
+        nm = f.node.name if isinstance(f, FuncRef) else str(getattr(f, 'name', ''))
+        base = nm.split('.')[-1]
+        if base == 'cf_radial_solver':
+            rec['args'] = dict(zip(cparams, args)); rec['args'].update(kwargs)
+            return Opaque('solution')
+        if base in ('allocate_mem', 'reallocate_mem'):
+            return Arr('heap')
+        if base in ('PyMem_Free', 'free_mem', 'free'):
+            return None
+        return NotImplemented
+
+    def glob_hook(itp, mod, nm):
+        if nm == 'log': return Opaque('log')
+        return None
+    d = X.Decider(seed=chk.seed + 87, k=2)
+    n = 8
+    arrs = {}
+    for nm in ('radius_array', 'density_array', 'gravity_array', 'bulk_modulus_array', 'complex_shear_modulus_array'):
+        a = Arr(nm, default=(lambda k, nm=nm: X.atom(f'{nm}[{k}]')), shape=(n,)); a.extent = n
+        arrs[nm] = a
+    scal = {'frequency': X.atom('frequency', 'pos'), 'planet_bulk_density': X.atom('rho_bulk', 'pos'), 'degree_l': X.atom('l', 'pos'), 'integration_rtol': X.atom('rtol', 'pos'),
+            'integration_atol': X.atom('atol', 'pos'), 'max_num_steps': X.atom('max_num_steps', 'pos'), 'expected_size': X.atom('expected_size', 'pos'), 'max_ram_MB': X.atom('max_ram', 'pos'),
+            'max_step': X.atom('max_step', 'pos')}
+    flags = {'use_kamata': True, 'scale_rtols_by_layer_type': True, 'limit_solution_to_radius': False, 'nondimensionalize': False, 'verbose': False, 'raise_on_fail': True}
+    for layer_types, statics, incomps, method, code in ((('solid', 'liquid', 'Solid'), (False, True, True), (True, False, False), 'DOP853', 2), (('liquid', 'solid'), (True, False), (False, True), 'rk23', 0)):
+        uppers = tuple(X.atom(f'upper_radius{i}', 'pos') for i in range(len(layer_types)))
+        solve_for = ('tidal', 'loading')
+        kw = dict(arrs); kw.update(scal); kw.update(flags)
+        kw.update({'layer_types': layer_types, 'is_static_by_layer': statics, 'is_incompressible_by_layer': incomps, 'upper_radius_by_layer': uppers, 'solve_for': solve_for,
+                   'integration_method': method, 'warnings': False})
+        wparams = {a.arg for a in fw.args.args}
+        miss = [k for k in kw if k not in wparams]
+        if miss:
+            raise AnalysisError(f'radial_solver: parameters {miss} vanished')
+        rec.clear()
+        it = Interp(repo, hooks={'call': call_hook, 'global': glob_hook}, max_depth=6)
+        try:
+            it.call(ms, fw, [], kw)
+        except Exception as ex:
+            if isinstance(ex, AnalysisError): raise
+            raise AnalysisError(f'radial_solver entry point could not be interpreted: {ex}')
+        a = rec.get('args')
+        lab = f'{len(layer_types)} layers {layer_types}, method {method}'
+        if a is None:
+            chk.ob(rule, f'{lab}: the entry point calls the compiled driver', False, 'cf_radial_solver is not reached with valid arguments', ms.where(fw), key=f'{rule}|{lab}|reached'); continue
+        bad = []
+        nl = len(layer_types)
+        def ptr_ok(v, arr): return isinstance(v, Arr) and v.base is arrs[arr].base and v.offset == 0
+        for cp, arr in (('radius_array_ptr', 'radius_array'), ('density_array_ptr', 'density_array'), ('gravity_array_ptr', 'gravity_array'), ('bulk_modulus_array_ptr', 'bulk_modulus_array'),
+                        ('complex_shear_modulus_array_ptr', 'complex_shear_modulus_array')):
+            if cp in a and not ptr_ok(a[cp], arr): bad.append(f'{cp} is not the first element of {arr}')
+        if a.get('total_slices') != n: bad.append(f'total_slices = {a.get("total_slices")}, the arrays hold {n}')
+        if a.get('num_layers') != nl: bad.append(f'num_layers = {a.get("num_layers")}')
+        def heap(v, k):
+            try: return v.get(k)
+            except Exception: return None
+        for k in range(nl):
+            if heap(a.get('layer_types_ptr'), k) != (0 if layer_types[k].lower() == 'solid' else 1): bad.append(f'layer {k}: type code is not that of {layer_types[k]!r}')
+            if bool(heap(a.get('is_static_by_layer_ptr'), k)) != statics[k]: bad.append(f'layer {k}: static flag')
+            if bool(heap(a.get('is_incompressible_by_layer_ptr'), k)) != incomps[k]: bad.append(f'layer {k}: incompressible flag')
+            if heap(a.get('upper_radius_by_layer_ptr'), k) is not uppers[k]: bad.append(f'layer {k}: upper radius')
+        for cp, v in list(scal.items()) + list(flags.items()):
+            if cp in a:
+                got = a[cp]
+                same = (got is v) if isinstance(v, X.Node) else (bool(got) == v if isinstance(v, bool) else got == v)
+                if isinstance(v, X.Node) and isinstance(got, X.Node) and not same: same = d.equal(got, v)
+                if not same: bad.append(f'{cp} does not receive the entry point\'s {cp}')
+        if a.get('solve_for') != solve_for: bad.append('solve_for is not passed on')
+        if a.get('integration_method') != code: bad.append(f'integration method code {a.get("integration_method")} for {method!r} (expected {code})')
+        chk.ob(rule, f'{lab}: every parameter of the compiled driver receives the like-named argument of the Python entry point (arrays by their first element, per-layer tuples in order, codes for layer type and method)',
+               not bad, '; '.join(bad[:4]), ms.where(fw), key=f'{rule}|{lab}', method='interpretation of the entry point with the driver replaced by a recorder')
